@@ -120,6 +120,16 @@ func c04R7(c *Ctx, rule string) {
 						if (isE13(at.X) && isK(at.Y, 0)) || (isE13(at.Y) && isK(at.X, 0)) {
 							zero = true
 						}
+						// the same fact in another arrangement: an equation whose two sides differ exactly by the
+						// extra length (len(rest) − extra == len(rest))
+						d := symAff(at.X, 0).add(symAff(at.Y, 0), -1)
+						if d.C == 0 && len(d.Terms) == 1 {
+							for s, k := range d.Terms {
+								if (k == 1 || k == -1) && isE13(s) {
+									zero = true
+								}
+							}
+						}
 					}
 				}
 				c.Check(zero && off == 14, rule, construct, pos, "whole remainder from offset 14, chosen only when header[13] == 0",
